@@ -321,6 +321,13 @@ func (t *stdioClientTransport) readLoop() {
 				break
 			}
 			t.logger.Errorf("Error reading message: %v", err)
+			// A json.Decoder stays in its error state and would report the same error
+			// forever: skip the rest of the offending line and start afresh behind it.
+			rest := bufio.NewReader(io.MultiReader(t.decoder.Buffered(), t.stdout))
+			if _, skipErr := rest.ReadString('\n'); skipErr != nil {
+				break
+			}
+			t.decoder = json.NewDecoder(rest)
 			continue
 		}
 
